@@ -840,11 +840,11 @@ Proof.
 Qed.
 
 Lemma enum_new_succeeds data values :
-  (length values <= 255)%nat -> (forall s, In (Some s) data -> In s values) ->
+  (length values <= 255)%nat -> nodup_bytes values = true -> (forall s, In (Some s) data -> In s values) ->
   exists d vals strict, enum_new data values = Ok (ECol d vals strict).
 Proof.
-  intros Hl H. rewrite enum_new_unfold. change (N.to_nat c_maxCardinality) with 255%nat.
-  destruct (255 <? length values)%nat eqn:E; [apply Nat.ltb_lt in E; lia|]. cbv zeta.
+  intros Hl Hnd H. rewrite enum_new_unfold. change (N.to_nat c_maxCardinality) with 255%nat.
+  destruct (255 <? length values)%nat eqn:E; [apply Nat.ltb_lt in E; lia|]. rewrite Hnd. cbv zeta. cbn [negb].
   destruct (enum_fold_ok (negb (length values =? 0)%nat) values data [] H) as (rs & Er).
   rewrite Er. cbn [obind fst snd]. eauto.
 Qed.
@@ -854,12 +854,12 @@ Proof. intro H. rewrite nth_error_map, H. reflexivity. Qed.
 
 (* createColumn on the slice of a column succeeds and the new column holds the cells that come back *)
 Lemma create_ok (I : list nat) (c : coldata) :
-  (forall p, In p I -> cell_at c p = Ok (cellT c p)) -> col_wf c = true ->
+  (forall p, In p I -> cell_at c p = Ok (cellT c p)) -> col_wf c = true -> enum_table_nodup c = true ->
   create_column (rb_data I c) (enum_of c) = Ok (rb_col I c) /\
   col_len (rb_col I c) = length I /\ col_type (rb_col I c) = rb_type (col_type c) /\
   forall k p, nth_error I k = Some p -> cell_at (rb_col I c) k = Ok (rb_cell (cellT c p)).
 Proof.
-  intros Hc Hwf. unfold rb_col.
+  intros Hc Hwf Hndt. unfold rb_col.
   assert (Hk : forall k p, nth_error I k = Some p -> In p I) by (intros k p H; eapply nth_error_In; exact H).
   destruct c as [d|d|d|d|d vs sct]; cbn [rb_data enum_of create_column unok col_len col_type rb_type].
   - split; [reflexivity|]. split; [apply map_length|]. split; [reflexivity|]. intros k p Hp.
@@ -882,7 +882,7 @@ Proof.
     assert (Hlen : (length vs <= 255)%nat).
     { cbn [col_wf] in Hwf. apply andb_true_iff in Hwf as [_ Hwf]. apply Nat.leb_le in Hwf.
       change (N.to_nat c_maxCardinality) with 255%nat in Hwf. exact Hwf. }
-    destruct (enum_new_succeeds x vs Hlen Hin) as (d' & vals & strict & En). rewrite En. cbn [unok].
+    destruct (enum_new_succeeds x vs Hlen Hndt Hin) as (d' & vals & strict & En). rewrite En. cbn [unok].
     destruct (enum_new_decode x vs d' vals strict En) as (_ & _ & _ & Hl' & Hcell).
     split; [reflexivity|]. split; [cbn [col_len]; rewrite Hl'; apply map_length|]. split; [reflexivity|].
     intros k p Hp. rewrite (Hcell k (st (cellT (ECol d vs sct) p))) by (exact (nth_error_map_some (fun q => st (cellT (ECol d vs sct) q)) I k p Hp)).
@@ -981,6 +981,7 @@ Lemma new_frame_unfold data order enums :
     let order' := match order with [] => sort_names (map fst data) | _ => order end in
     if negb (Nat.eqb (length order') (length data)) then Ok errf
     else if negb (forallb (fun n => match assocb n data with Some _ => true | None => false end) order') then Ok errf
+    else if negb (nodup_bytes order') then Ok errf
     else
       match ofold (nf_step data enums) order' ([], 0%nat, []) with
       | Ok (cs, len, used) =>
@@ -1099,6 +1100,7 @@ Theorem readback f t :
   ferr f = false -> wf_frame f = true -> abs f = Ok t ->
   cols f <> [] -> ix f <> [] ->
   NoDup (col_names f) -> Forall name_ok (col_names f) ->
+  enum_tables_nodup f = true ->
   Forall (Forall rb_ok) (trows t) ->
   exists out f',
     frame_to_json f = Ok out /\
@@ -1106,7 +1108,7 @@ Theorem readback f t :
     ferr f' = false /\
     abs f' = Ok (mkTable (tnames t) (map rb_type (ttypes t)) (map (map rb_cell) (trows t))).
 Proof.
-  intros He Hwf Ha Hcs HI Hnd Hnames Hrb.
+  intros He Hwf Ha Hcs HI Hnd Hnames Hndt Hrb.
   destruct (abs_rows f t Ha) as (Hn & Hty & Hrows & Hcell).
   set (cs := cols f) in *. set (I := ix f) in *. unfold col_names in *. fold cs in Hnd, Hnames, Hn |- *.
   set (names := map fst cs) in *.
@@ -1132,7 +1134,8 @@ Proof.
   { intros nc Hnc. apply create_ok.
     - intros p Hp. apply Hcell; assumption.
     - unfold wf_frame in Hwf. apply andb_true_iff in Hwf as [Hwf _]. rewrite forallb_forall in Hwf.
-      specialize (Hwf nc Hnc). apply andb_true_iff in Hwf as [_ Hwf]. exact Hwf. }
+      specialize (Hwf nc Hnc). apply andb_true_iff in Hwf as [_ Hwf]. exact Hwf.
+    - unfold enum_tables_nodup in Hndt. rewrite forallb_forall in Hndt. apply (Hndt nc Hnc). }
   set (data := map (fun nc => (fst nc, rb_data I (snd nc))) cs).
   set (f' := mkFrame (map (fun nc => (fst nc, rb_col I (snd nc))) cs) (seq 0 (length I)) false).
   exists out, f'.
@@ -1160,6 +1163,7 @@ Proof.
     { apply forallb_forall. intros n Hin. unfold names in Hin. apply in_map_iff in Hin as (nc & <- & Hnc).
       unfold data. rewrite (assocb_map (fun x => rb_data I (snd x)) cs nc Hnd Hnc). reflexivity. }
     rewrite Hfound. cbn [negb].
+    rewrite (proj2 (nodup_bytes_spec names) Hnd). cbn [negb].
     pose proof (nf_fold cs I Hnd (fun nc Hnc => conj (proj1 (Hcol nc Hnc)) (proj1 (proj2 (Hcol nc Hnc))))
                         cs [] eq_refl) as NF.
     cbn [map first_of rev] in NF. unfold enames at 1 in NF. cbn [enum_conf flat_map map rev] in NF.
@@ -1253,6 +1257,7 @@ Theorem readback_from_spec parse_float int_to_float f t :
   ferr f = false -> wf_frame f = true -> abs f = Ok t ->
   cols f <> [] -> ix f <> [] ->
   NoDup (col_names f) -> Forall name_ok (col_names f) ->
+  enum_tables_nodup f = true ->
   Forall (Forall (fun c =>
             match c with
             | CInt z => parse_float (CsvWrite.itoa z) = Some (int_to_float z)
@@ -1266,8 +1271,8 @@ Theorem readback_from_spec parse_float int_to_float f t :
     ferr f' = false /\
     abs f' = Ok (mkTable (tnames t) (map rb_type (ttypes t)) (map (map (rb_cell int_to_float)) (trows t))).
 Proof.
-  intros HP HR He Hwf Ha Hcs HI Hnd Hnames Hcells.
-  apply (readback parse_float int_to_float f t He Hwf Ha Hcs HI Hnd Hnames).
+  intros HP HR He Hwf Ha Hcs HI Hnd Hnames Hndt Hcells.
+  apply (readback parse_float int_to_float f t He Hwf Ha Hcs HI Hnd Hnames Hndt).
   eapply Forall_impl; [|exact Hcells]. intros row Hrow.
   eapply Forall_impl; [|exact Hrow]. intros c Hc.
   destruct c as [z|b|b|[s|]|[s|]]; cbn [rb_ok]; try exact Hc.
